@@ -88,7 +88,8 @@ def run(eng, rep, tier):
         return any(l[0] == t_[0] and l[1][:len(t_[1])] == t_[1] for l in av.alias for t_ in tbl_locs)
     # (a constant index into a cell - `rules[0]` after the length test - is not a lookup by an input-derived key)
     tbl_sub = [ev for ev in own(summ) if ev.kind == "subscript" and ev.recv is not None and tbl_locs and _of_table(ev.recv)
-               and not (ev.args and ev.args[0].has_const())]
+               and not (ev.args and (ev.args[0].has_const() or ev.args[0].only("int", "bool")))
+               and not ev.recv.only("list", "tuple", "str")]       # positions in a production body are not table keys
     ob.decide("R6", "C14.1", fi, "table-lookups-use-get", len(gets) >= 2 and not tbl_sub,
               "table lookups use .get with defaults", "the parsing table is subscripted with input-derived keys", summ,
               site=(tbl_sub[0].site.to_json() if tbl_sub else None))
